@@ -79,6 +79,11 @@ theorem restart_recovers (s : Shard) (e : Ev)
     rw [mem_sortNat, List.mem_map]
     exact ⟨f, hf, rfl⟩
 
+/-- A restart leaves an existing index alone. -/
+theorem restart_index_of_exists {s : Shard} (h : s.indexExists = true) :
+    (restart (crash s)).index = s.index ∧ (restart (crash s)).indexExists = true := by
+  simp [restart, crash, h]
+
 theorem mem_walPut (wal : List (Nat × List Ev)) (id : Nat) (e : Ev) :
     ∃ f ∈ walPut wal id e, e ∈ f.2 := by
   unfold walPut
